@@ -239,8 +239,25 @@ def snapshot(s, rec, op, ret):
         "n_trials": len(rec.trials), "n_ls": len(rec.linesearch), "n_con": len(rec.con_calls), "n_pen": len(rec.pen_calls),
     }
     if nem >= 0 and nem:
-        snap["evalmon_last"] = (vec(em._x[-1]), float(np.asarray(em._y[-1], dtype=float).ravel()[0]) if np.ndim(em._y[-1]) == 0 or len(np.ravel(em._y[-1])) == 1 else [float(t) for t in np.ravel(em._y[-1])])
+        ylast = em._y[-1] if getattr(em, "k", None) is None else em.y[-1]      # the cost as recorded (`y` undoes the multiplier k)
+        snap["evalmon_last"] = (vec(em._x[-1]), float(np.asarray(ylast, dtype=float).ravel()[0]) if np.ndim(ylast) == 0 or len(np.ravel(ylast)) == 1 else [float(t) for t in np.ravel(ylast)])
     return snap
+
+
+class _FalsyCallback(object):
+    """a callback object that is empty in the sense of `bool()` / `len()` (e.g. a list-like recorder before its first
+    record): `callback is not None`, so it must be called once per iteration like any other"""
+    def __init__(self, f):
+        self.f = f
+
+    def __call__(self, x):
+        return self.f(x)
+
+    def __bool__(self):
+        return False
+
+    def __len__(self):
+        return 0
 
 
 def run_trace(spec, seed):
@@ -263,7 +280,9 @@ def run_trace(spec, seed):
     apply_config(s, spec, prob)
     rec.init_population = [vec(p) for p in s.population]
     kw = {}
-    if spec.get("callback", True):
+    if spec.get("callback", True) == "falsy":
+        kw["callback"] = _FalsyCallback(prob.callback_fn)
+    elif spec.get("callback", True):
         kw["callback"] = prob.callback_fn
     with patched(rec):
         for op in spec["ops"]:
@@ -319,11 +338,11 @@ def run_trace(spec, seed):
                 s._EARLYEXIT = False
             elif k == "setevalmon":
                 from mystic.monitors import Monitor
-                s.SetEvaluationMonitor(Monitor(), new=bool(op[1]))
+                s.SetEvaluationMonitor(Monitor(k=op[2]) if len(op) > 2 and op[2] is not None else Monitor(), new=bool(op[1]))
             elif k == "setstepmon":
                 from mystic.monitors import Monitor, Null
                 kindm = op[2] if len(op) > 2 else "monitor"
-                s.SetGenerationMonitor({"monitor": Monitor(), "none": None, "null": Null()}[kindm], new=bool(op[1]))
+                s.SetGenerationMonitor(Monitor(k=op[3]) if kindm == "k" else {"monitor": Monitor(), "none": None, "null": Null()}[kindm], new=bool(op[1]))
             else:
                 raise ValueError(op)
             sn = snapshot(s, rec, op, ret)
